@@ -34,6 +34,13 @@ LOOPS = {
     'bound_method_holds_receiver': 'class H { init(v) { self.v = [v, "s${v}"]; } get() { self.v[0] } }\nlet s = 0;\nfor i in %(n)d.times() { let m = H(i).get; let junk = ["q${i}"]; s = s + m() - i; }\nprint(s);\n',
     'map_keys_values_only': 'let m = {};\nlet s = 0;\nfor i in %(n)d.times() { m["k${i - (i / 4).floor() * 4}"] = ["val", i]; let junk = "w${i}"; s = s + m.len(); }\nprint(s > 0, m["k0"][0]);\n',
     'module_snapshot': 'class Z { init() { self.items = []; } add(x) { self.items.push(x); return self.items.len(); } }\nlet z = Z();\nlet s = 0;\nfor i in %(n)d.times() { if z.items.len() > 6 { z.items.clear(); } s = s + z.add(["it${i}"]) - z.items.len(); }\nprint(s);\n',
+    'reduce_heap_accumulator': 'let s = 0;\nfor i in %(n)d.times() { let r = ["a", "b", "c", "d"].iter().map(|x| x + "${i}").reduce(">", |acc, c| acc + c); s = s + r.len(); }\nprint(s > 0);\n',
+    'reduce_list_accumulator': 'let s = 0;\nfor i in %(n)d.times() { let r = [1, 2, 3].iter().map(|x| [x, "v${i}"]).reduce([], |acc, c| [acc, c, "k${i}"]); s = s + r.len(); }\nprint(s > 0);\n',
+    'sort_allocating_comparator': 'let s = 0;\nfor i in %(n)d.times() { let l = ["b${i}", "a${i}", "c${i}"].sort(|a, b| { let t = [a, b, "t${i}"]; return a < b ? -1 : (a > b ? 1 : 0); }); s = s + l.len(); }\nprint(s > 0);\n',
+    'callbacks_raise_reduce': 'let n = 0;\nfor i in %(n)d.times() { try { [1, 2, 3].iter().reduce(["acc ${i}"], |a, x| [][x]); } catch e: Error { n = n + 1; } }\nprint(n);\n',
+    'callbacks_raise_each_all_any': 'let n = 0;\nfor i in %(n)d.times() { try { [1, 2].iter().each(|x| [][x]); } catch e: Error { n = n + 1; } try { [1, 2].iter().all(|x| [][x]); } catch e: Error { n = n + 1; } try { [1, 2].iter().any(|x| [][x]); } catch e: Error { n = n + 1; } }\nprint(n);\n',
+    'callbacks_raise_zip': 'let n = 0;\nfor i in %(n)d.times() { try { [1, 2].iter().zip([1, 2].iter().map(|x| [][x])).list(); } catch e: Error { n = n + 1; } }\nprint(n);\n',
+    'native_errors_first_statement': 'let n = 0;\nfor i in %(n)d.times() { try { assertEq("a${i}", "expected"); } catch e: Error { if e.message != "Expected \'a${i}\' to equal \'expected\'." { print("BAD", e.message); } n = n + 1; } }\nprint(n);\n',
 }
 
 
